@@ -22,6 +22,16 @@ def load_prop(pid: str):
     return importlib.import_module(f'pbt.props.{pid.lower()}')
 
 
+def full_plan(mod, pid: str, tier: str) -> list:
+    jobs = list(mod.plan(tier))
+    cdir = os.path.join(core.ROOT, 'corpus', pid)
+    if os.path.isdir(cdir):
+        files = sorted(os.path.join(cdir, f) for f in os.listdir(cdir) if f.endswith('.json'))
+        if files:
+            jobs.append({'engine': 'corpus', 'files': files})
+    return jobs
+
+
 def quiet_labtech():
     import logging
     try:
@@ -33,11 +43,22 @@ def quiet_labtech():
 
 def run_job(pid: str, tier: str, seed: int, job_index: int, out: str) -> int:
     mod = load_prop(pid)
-    jobs = mod.plan(tier)
+    jobs = full_plan(mod, pid, tier)
     job = jobs[job_index]
     quiet_labtech()
     rec = core.Recorder(pid, tier, seed)
-    mod.run_job(rec, job, core.derive_seed(seed, pid, job_index))
+    if job.get('engine') == 'corpus':
+        # seconds-long replay tier: every committed regression case, bypassing Hypothesis
+        for path in job['files']:
+            record = core.load_replay(path)
+            res = mod.replay(record)
+            eng = 'corpus:' + record.get('engine', '?')
+            rec.case(eng, record.get('case'), res)
+            bad = rec.triage(eng, record.get('case'), res)
+            if bad:
+                rec.violation(eng, record.get('case'), bad, res.summary)
+    else:
+        mod.run_job(rec, job, core.derive_seed(seed, pid, job_index))
     with open(out + '.tmp', 'w') as f:
         json.dump(rec.to_json(), f, default=repr)
     os.replace(out + '.tmp', out)
@@ -54,7 +75,7 @@ def kill_group(proc: subprocess.Popen) -> None:
 def orchestrate(pid: str, tier: str, seed: int) -> int:
     timer = core.Timer()
     mod = load_prop(pid)
-    jobs = mod.plan(tier)
+    jobs = full_plan(mod, pid, tier)
     rec = core.Recorder(pid, tier, seed)
     scratch = tempfile.mkdtemp(prefix=f'labtech-verif-{pid}-')
     errors: list[str] = []
